@@ -262,16 +262,20 @@ def succOf (t : Tbl) (u : Int) : Except Err (Nat × Option (Int × Int)) :=
   | none => .error .key
   | some n => .ok (n.lvl, some (n.lo, n.hi))
 
-/-- `BDD.succ(u)`: `(i, wrap(v), wrap(w))`; the first wrapper dies when the second raises -/
+/-- `wrap(v), wrap(w)` of `BDD.succ`: the first wrapper dies when the second raises -/
+def aSuccWrap (h1 h2 : Nat) (v w : Int) : AM Unit := do
+  wrap h1 v
+  AM.onErr (wrap h2 w) (drop h1)
+
+/-- `BDD.succ(u)`: `(i, wrap(v), wrap(w))`; no membership test on `u` -/
 def aSucc (hu : Nat) (h1 h2 : Nat) : AM (Nat × Option (Int × Int)) := do
   let u ← nodeAny hu
-  let (i, c) ← AM.liftE fun m => succOf m.tbl u
-  match c with
-  | none => return (i, none)
-  | some (v, w) =>
-    wrap h1 v
-    AM.onErr (wrap h2 w) (drop h1)
-    return (i, some (v, w))
+  let p ← AM.liftE fun m => succOf m.tbl u
+  match p.2 with
+  | none => pure (p.1, none)
+  | some (v, w) => do
+    aSuccWrap h1 h2 v w
+    pure (p.1, some (v, w))
 
 def aIncref (hu : Nat) : AM Unit := do
   let u ← nodeAny hu
@@ -316,6 +320,13 @@ def fNe (hs ho : Nat) : AM Bool := do
   let r ← fEq hs ho
   return !r
 
+/-- `other | t1` inside `__le__`: `other._apply('or', t1)` → the `Function` `t2` -/
+def fLeOr (ho : Nat) (n1 : Int) (t2 : Nat) : AM Int := do
+  let o ← nodeSame ho
+  let n2 ← AM.liftM (apply "or" o (some n1) none)
+  wrapF t2 n2
+  pure n2
+
 /-- `Function.__le__`: `(other | ~ self) == self.bdd.true`.
 CPython 3.12: `t1 = ~self`; `t2 = other | t1`; `t1` released when the binary
 operation has been evaluated (or has raised); `t3 = self.bdd.true`; comparison;
@@ -326,12 +337,7 @@ def fLe (hs ho : Nat) : AM Bool := do
   let n1 ← AM.liftM (apply "not" s none none)
   wrapF t1 n1
   let t2 ← freshH
-  let n2 ← AM.finally' (do
-      -- `other._apply('or', t1)`
-      let o ← nodeSame ho
-      let n2 ← AM.liftM (apply "or" o (some n1) none)
-      wrapF t2 n2
-      pure n2) (drop t1)
+  let n2 ← AM.finally' (fLeOr ho n1 t2) (drop t1)
   let t3 ← freshH
   AM.onErr (wrap t3 1) (drop t2)
   drop t2
@@ -417,12 +423,14 @@ def aCopyBddTo (src : AMgr) (hu : Nat) (h : Nat) : AM Int := fun dst =>
 
 /-- `copy_vars(source, target)`: `target.add_var(var, level)` for `var in source.vars`
 (dict order = order of declaration, passed in by the driver as `names`) -/
-def aCopyVars (src : Tbl) (names : List String) : AM Unit := AM.liftM do
+def copyVarsCore (src : Tbl) (names : List String) : M Unit := do
   let dflt := src.vars.keys
   if !(names.length == dflt.length && names.all (dflt.contains ·)) then M.throw .sched
   for v in names do
     match src.vars[v]? with
     | none => M.throw .value
     | some l => let _ ← addVar v (some (l : Int))
+
+def aCopyVars (src : Tbl) (names : List String) : AM Unit := AM.liftM (copyVarsCore src names)
 
 end DD
